@@ -48,7 +48,7 @@ const CONS: [(K, usize); 22] = [
     (K::Bin("|"), 2),
 ];
 
-const LEAVES6: [&str; 6] = ["a", "b", "1", "2.5", "'q'", "sqrt()"];
+const LEAVES6: [&str; 7] = ["a", "b", "1", "2.5", "'q'", "sqrt()", "'6\" p\u{b0}\tq'"];
 const LEAVES2: [&str; 2] = ["a", "1"];
 
 struct Gen {
@@ -124,6 +124,44 @@ const DIRECT_FUNCS: [Function; 20] = [
     Function::Sqrt, Function::Exp, Function::Ln, Function::Log2, Function::Log10, Function::Sin, Function::Cos, Function::Tan, Function::Asin, Function::Acos,
     Function::Atan, Function::Sinh, Function::Cosh, Function::Tanh, Function::Asinh, Function::Acosh, Function::Atanh, Function::Log, Function::Hypot, Function::Atan2,
 ];
+
+/// The same document can reach a peer by other routes than `to_string` / `from_str`: as a
+/// serde_json::Value, from a reader, or written by a producer that escapes every non-ASCII
+/// character.  Every route must give the tree back.
+fn serde_other_routes(e0: &Expr) -> Vec<(String, String)> {
+    let mut bad = vec![];
+    let es = ExprString(e0.clone());
+    match serde_json::to_value(&es).ok().and_then(|v| serde_json::from_value::<ExprString>(v).ok()) {
+        Some(back) if back.0 == *e0 => {}
+        Some(back) => bad.push(("ExprString does not survive serde (through a Value)".to_string(), format!("`{}` came back as `{}`", e0, back.0))),
+        None => bad.push(("ExprString fails to deserialise (through a Value)".to_string(), format!("`{}`", e0))),
+    }
+    if let Ok(text) = serde_json::to_string(&es) {
+        match serde_json::from_reader::<_, ExprString>(text.as_bytes()) {
+            Ok(back) if back.0 == *e0 => {}
+            Ok(back) => bad.push(("ExprString does not survive serde (from a reader)".to_string(), format!("`{}` came back as `{}`", e0, back.0))),
+            Err(e) => bad.push(("ExprString fails to deserialise (from a reader)".to_string(), format!("`{}`: {}", e0, e))),
+        }
+        // the same JSON string with every non-ASCII character written as \uXXXX (what Python's json.dumps emits)
+        let mut ascii = String::new();
+        for ch in text.chars() {
+            if ch.is_ascii() {
+                ascii.push(ch);
+            } else {
+                let mut buf = [0u16; 2];
+                for u in ch.encode_utf16(&mut buf) {
+                    ascii.push_str(&format!("\\u{:04x}", u));
+                }
+            }
+        }
+        match serde_json::from_str::<ExprString>(&ascii) {
+            Ok(back) if back.0 == *e0 => {}
+            Ok(back) => bad.push(("ExprString does not survive serde (ASCII-escaped JSON)".to_string(), format!("`{}` came back as `{}`", e0, back.0))),
+            Err(e) => bad.push(("ExprString fails to deserialise (ASCII-escaped JSON)".to_string(), format!("`{}`: {}", e0, e))),
+        }
+    }
+    bad
+}
 
 fn direct_tree(i: u64) -> Expr {
     let f = DIRECT_FUNCS[(i / 5) as usize];
@@ -345,7 +383,7 @@ impl Space for C11 {
         Meta {
             id: "C11",
             level: "exploration",
-            rule: "every expression tree with <= 2 operator nodes over 6 leaves (thorough: also <= 3 nodes over 2 leaves) and 22 constructors (11 binary operators, explicit *, |, juxtaposition of 2 and 3, unary + and -, two temperature suffixes, `of`, calls with 0/1/2 arguments) in every operand position; each tree is written fully parenthesised and parsed by rink, giving e0; then Display(e0), the serde form of ExprString, and the ExprReply parts (joined by single spaces) must each parse back to e0 with the whole text consumed. A generated text that parses to an error node is a violation. Third source: calls without arguments of all 20 functions built directly from the AST constructors, alone and in 4 operand positions. Second source: every expression of every entry of definitions.units and currency.units as produced by the definitions parser, also through serde_json for the whole DefEntry. Non-trivial = not excluded (inexact numerals, names that are not plain identifiers, error nodes); distinct by Debug form of e0".into(),
+            rule: "every expression tree with <= 2 operator nodes over 7 leaves (one a quoted name containing a double quote, a degree sign and a tab) (thorough: also <= 3 nodes over 2 leaves) and 22 constructors (11 binary operators, explicit *, |, juxtaposition of 2 and 3, unary + and -, two temperature suffixes, `of`, calls with 0/1/2 arguments) in every operand position; each tree is written fully parenthesised and parsed by rink, giving e0; then Display(e0), the serde form of ExprString (through to_string/from_str, through a Value, from a reader, and from ASCII-escaped JSON), and the ExprReply parts (joined by single spaces) must each parse back to e0 with the whole text consumed. A generated text that parses to an error node is a violation. Third source: calls without arguments of all 20 functions built directly from the AST constructors, alone and in 4 operand positions. Second source: every expression of every entry of definitions.units and currency.units as produced by the definitions parser, also through serde_json for the whole DefEntry. Non-trivial = not excluded (inexact numerals, names that are not plain identifiers, error nodes); distinct by Debug form of e0".into(),
             assumptions: vec![
                 "ExprReply parts are rendered by joining them with single spaces".into(),
                 "trees whose constants print inexactly (recurring/approx.) or whose names are not plain identifiers of the query language are outside the statement and are skipped and counted".into(),
@@ -414,6 +452,9 @@ impl Space for C11 {
                 Some(back) if back.0 == e0 => {}
                 Some(back) => out = out.viol("ExprString does not survive serde", format!("`{}` came back as `{}`", e0, back.0)),
                 None => out = out.viol("ExprString fails to deserialise", format!("`{}`", e0)),
+            }
+            for (s, d) in serde_other_routes(&e0) {
+                out = out.viol(s, d);
             }
             return out;
         }
